@@ -25,6 +25,7 @@ type SpecEnv struct {
 	lookup func(st *State, name string) (*Val, bool)
 	entry  *State // state at loop entry (for entry(e) in loop clauses)
 	visited string // visited-key set of the map range loop the clause belongs to
+	visitedM *Val  // the map that loop ranges over
 	pol     int    // +1 (or 0 at top): formula will be proved; -1: it will be assumed; 2: mixed
 	cbOrd   int    // callback whose invariant is being evaluated (for _n, _a0..)
 	cbN     string
@@ -606,6 +607,10 @@ func (env *SpecEnv) call(n *ast.CallExpr) *Val {
 			if isString(k.Ty) {
 				return mkBool(tSel(env.visited, x.strID(k)))
 			}
+			if env.visitedM != nil {
+				kt := under(env.visitedM.Ty).(*types.Map).Key()
+				return mkBool(tSel(env.visited, x.mapKey(env.st, env.visitedM.Ty, env.coerce(k, kt))))
+			}
 			return mkBool(tSel(env.visited, k.L[0]))
 		case "entry":
 			if env.entry == nil {
@@ -893,6 +898,13 @@ func (env *SpecEnv) callSpec(sf *SpecFunc, args []*Val) *Val {
 				}
 				flat = append(flat, s...)
 				sorts = append(sorts, seqSorts(sliceElem(ptypes[i]))...)
+			} else if fs, ok := flatKeySorts(ptypes[i]); ok && sf.Body == nil && containsArray(ptypes[i]) && len(a.L) == len(leafSorts(ptypes[i])) {
+				// fixed-size arrays inside an argument of an uninterpreted
+				// function are passed element by element: two values that agree
+				// on every element are the same argument (an SMT array term also
+				// has elements outside the Go array's range)
+				flat = append(flat, x.flatKeyTerms(a)...)
+				sorts = append(sorts, fs...)
 			} else {
 				flat = append(flat, a.L...)
 				sorts = append(sorts, leafSorts(ptypes[i])...)
@@ -1160,4 +1172,18 @@ func (x *Exec) lastCallType(name string, k int) types.Type {
 	}
 	visit(x.top.outermost())
 	return found
+}
+
+func containsArray(t types.Type) bool {
+	switch u := under(t).(type) {
+	case *types.Array:
+		return true
+	case *types.Struct:
+		for i := 0; i < u.NumFields(); i++ {
+			if containsArray(u.Field(i).Type()) {
+				return true
+			}
+		}
+	}
+	return false
 }
